@@ -149,6 +149,8 @@ def apply_op(G, cls, op, lab):
             G.set_max_lag(op[1])
         elif k == "cp":
             return G, False, G.copy()
+        elif k == "ou":
+            G.orient_uncertain_edge(nd(op[1]), nd(op[2]))
         else:
             raise AssertionError(op)
     except AssertionError:
@@ -203,6 +205,9 @@ def _vars_of(ops):
                 yield v[0]
         elif op[0] in ("av", "rv"):
             yield op[1]
+        elif op[0] == "ou":
+            yield op[1][0]
+            yield op[2][0]
 
 
 # ----------------------------------------------------------------------------- Lean side
@@ -218,10 +223,16 @@ def fmt_op(op):
         return "%s:%s:%s" % (k, op[1], "+".join("%s>%s" % (fmt_node(u), fmt_node(v)) for u, v in op[2]))
     if k == "cp":
         return "cp"
+    if k == "ou":
+        return "ou:%s:%s" % (fmt_node(op[1]), fmt_node(op[2]))
     return "%s:%d" % (k, op[1])
 
 
 def run_line(case):
+    if any(o[0] == "ou" for o in case["ops"]):  # CPDAG histories with orient_uncertain_edge: model C13.crun
+        if case["cls"] != "cpdag":
+            raise AssertionError("orient_uncertain_edge is modelled for the CPDAG only")
+        return "c13crun m=%d ops=%s" % (case["m"], ";".join(fmt_op(o) for o in case["ops"]))
     return "c13run cls=%s m=%d ops=%s" % (case["cls"], case["m"], ";".join(fmt_op(o) for o in case["ops"]))
 
 
@@ -256,6 +267,10 @@ def spec_problems(case, res, inv_answers):
         if step["raised"] and edges_part(st) != edges_part(prev):
             bad.append((i, "raise-changed", "the operation raised %s but changed max_lag or an edge set: %s -> %s"
                         % (step.get("exc"), prev, st)))
+        if op[0] == "cp" and step["raised"]:
+            # no class raises in copy() on a state reached inside the calling convention (theorems C13_copy_classes,
+            # C13_copy_cpdag)
+            bad.append((i, "copy-raised", "copy() raised %s on %s" % (step.get("exc"), prev)))
         if op[0] == "cp" and not step["raised"]:
             if not step.get("copy_class_ok", True):
                 bad.append((i, "copy-class", "copy() is not of the same class"))
@@ -310,6 +325,8 @@ def in_quantifier(case):
     CPDAG/PAG never with edge_type 'all'; CPDAG/PAG bulk lists with pairwise distinct variable pairs"""
     kinds = CLASSES[case["cls"]]["kinds"]
     for op in case["ops"]:
+        if op[0] == "ou" and (case["cls"] != "cpdag" or tuple(op[1]) == tuple(op[2])):
+            return False
         if op[0] in ("ae", "re", "ab", "rb"):
             sel = op[1]
             if case["cls"] in ("cpdag", "pag") and sel == "*":
@@ -516,6 +533,62 @@ def gen_random(ctx):
         yield case
 
 
+def orient_alphabet(m):
+    """CPDAG alphabet around orient_uncertain_edge: undirected / directed edges (lagged, contemporaneous),
+    orientation asked in both argument orders, on a homologous copy, outside the window, without an edge"""
+    return [["ae", 1, [0, -1], [1, 0]], ["ae", 1, [0, 0], [1, 0]], ["ae", 0, [0, -1], [1, 0]], ["ae", 0, [1, 0], [0, 0]],
+            ["ou", [0, -1], [1, 0]], ["ou", [1, 0], [0, -1]], ["ou", [0, 0], [1, 0]], ["ou", [1, 0], [0, 0]],
+            ["ou", [0, -m], [1, -m + 1]], ["ou", [1, -m], [0, -m]], ["ou", [0, -m - 1], [1, 0]],
+            ["re", 1, [0, -1], [1, 0]], ["re", 0, [0, 0], [1, 0]], ["ml", m + 1], ["ml", m - 1], ["cp"], ["rv", 0]]
+
+
+def gen_orient(ctx):
+    """StationaryTimeSeriesCPDAG histories with orient_uncertain_edge (model C13.crun): exhaustive over
+    `orient_alphabet` + random histories with orientations aimed at undirected edges added before.
+    Uses its own random stream so that the other streams are what they were."""
+    import random
+    depth = 2 if ctx["tier"] == "quick" else 3
+    for m in ((1, 2) if ctx["tier"] == "quick" else (1, 2, 3)):
+        alpha = orient_alphabet(m)
+        for d in range(1, depth + 1):
+            for combo in itertools.product(alpha, repeat=d):
+                if not any(o[0] == "ou" for o in combo):
+                    continue
+                case = {"cls": "cpdag", "m": m, "ops": [json.loads(json.dumps(o)) for o in combo], "src": "ou-exh%d" % d}
+                if in_quantifier(case):
+                    yield case
+    rng = random.Random("c13-orient-%s" % ctx["seed"])
+    fams = ("int", "str", "tuple")
+    for i in range(400 if ctx["tier"] == "quick" else 8000):
+        m = rng.choice((1, 1, 2, 2, 3, 4))
+        nvars = rng.choice((2, 2, 3))
+        base = rand_history(rng, "cpdag", nvars, m, rng.choice((6, 12, 25)))
+        ops, und = [], []
+        for op in base:
+            ops.append(op)
+            if op[0] == "ae" and op[1] == 1:
+                und.append((op[2], op[3]))
+            if op[0] == "ab" and op[1] == 1:
+                und += [(u, v) for u, v in op[2]]
+            if rng.random() < 0.3:
+                if und and rng.random() < 0.8:
+                    u, v = rng.choice(und)
+                    if rng.random() < 0.4:   # a homologous copy, maybe over the border
+                        sh = rng.choice((-1, 1, 2))
+                        u, v = [u[0], u[1] - sh], [v[0], v[1] - sh]
+                    if rng.random() < 0.5:
+                        u, v = v, u
+                else:
+                    u = [rng.randrange(nvars), -rng.randint(0, m)]
+                    v = [rng.randrange(nvars), -rng.randint(0, m)]
+                if tuple(u) != tuple(v):
+                    ops.append(["ou", list(u), list(v)])
+        case = {"cls": "cpdag", "m": m, "fam": fams[i % 3], "src": "ou-rnd", "ops": ops}
+        if not in_quantifier(case):
+            raise AssertionError("generator left the quantifier: %r" % case)
+        yield case
+
+
 # ----------------------------------------------------------------------------- entry points
 def nontrivial(case, model):
     """a window change or a rejected operation on a graph that has edges"""
@@ -553,7 +626,9 @@ def run(ctx):
                "exhaustive: every history up to length 2 (thorough: 3) over a ~20 operation alphabet on 2-3 variables, "
                "max_lag 1-2 (thorough 1-3); random: length 6/12/25, 2-3 variables, max_lag 1-4, lags aimed at 0, "
                "-max_lag and just outside the window, contemporaneous edges, homologous copies of earlier edges for "
-               "removal, shrink after grow, bulk calls with a rejected member, three label families. After every "
+               "removal, shrink after grow, bulk calls with a rejected member, three label families; CPDAG histories "
+               "with orient_uncertain_edge (model C13.crun): exhaustive to the same depth over a 17 operation alphabet "
+               "(both argument orders, homologous copy, outside the window, no edge) + 400 / 8000 random. After every "
                "operation: nodes, edges per edge type, max_lag, raised or not, per-edge-type node set and max_lag. "
                "non-trivial = a successful set_max_lag or a rejected operation happens while the graph has edges")
     ev.assumptions = [
@@ -563,7 +638,7 @@ def run(ctx):
         "remove_node of a single lag and attributes are outside the property",
         "label<->index bijection and canonicalisation in harness/c13.py",
     ]
-    cases = list(C.load_corpus(PID)) + list(gen_exhaustive(ctx)) + list(gen_random(ctx))
+    cases = list(C.load_corpus(PID)) + list(gen_exhaustive(ctx)) + list(gen_random(ctx)) + list(gen_orient(ctx))
     triples, states = evaluate(cases)
     bad_spec, bad_model = [], []
     for case, res, model in triples:
